@@ -1,4 +1,5 @@
 import WellenModel.Proofs.EntryRoundtrip
+import WellenModel.Proofs.Stream
 import WellenModel.Proofs.Tables
 import WellenModel.Model.Spec
 /-!
@@ -60,7 +61,45 @@ theorem C04_char_faithful (c : Fin 256) (v : Nat) (h : bitCharToNum c.val = some
 theorem C04_kind_independent_chars : Gen.lookup2 = Gen.lookup9.take 2 ∧ Gen.lookup4 = Gen.lookup9.take 4 :=
   lookup_prefix
 
+/-! ### stream level: the payload of one signal in one block decodes into the changes that were written -/
+
+/-- multi-bit signals: any number of changes, any deltas / kinds; the loader reproduces every change at the running time index
+(`replayFixed` = push the aligned entry of each change, immediate repetitions dropped) -/
+theorem C04_stream_fixed (bits : Nat) (hb : bits ≠ 1) (sigS : States) (cs : List (Nat × States × List Nat))
+    (h : ∀ c ∈ cs, c.2.2.length = divCeil bits c.2.1.bib ∧ ((c.1 <<< 2) ||| c.2.1.toNat) < 2 ^ 32)
+    (fuel last : Nat) (a : Acc) (hf : cs.length < fuel) :
+    loadFixed bits sigS fuel (encStream cs) last a = some (replayFixed bits sigS cs last a).2 :=
+  loadFixed_stream bits hb sigS cs h fuel last a hf
+
+theorem C04_stream_onebit (sigS : States) (cs : List (Nat × Nat))
+    (h : ∀ c ∈ cs, c.2 < 16 ∧ ((c.1 <<< 4) + c.2) < 2 ^ 32) (fuel last : Nat) (a : Acc) (hf : cs.length < fuel) :
+    loadFixed 1 sigS fuel (encOneBit cs) last a = some (replayOneBit cs last a).2 :=
+  loadFixed_stream_onebit sigS cs h fuel last a hf
+
+theorem C04_stream_reals (cs : List (Nat × List Nat)) (h : ∀ c ∈ cs, c.2.length = 8 ∧ c.1 < 2 ^ 32)
+    (fuel last : Nat) (a : Acc) (hf : cs.length < fuel) :
+    loadReals fuel (encReals cs) last a = some (replayPlain cs last a).2 :=
+  loadReals_stream cs h fuel last a hf
+
+theorem C04_stream_strings (cs : List (Nat × List Nat)) (h : ∀ c ∈ cs, c.1 < 2 ^ 32)
+    (fuel last : Nat) (a : Acc) (hf : cs.length < fuel) :
+    loadStrings fuel (encStrings cs) last a = some (replayPlain cs last a).2 :=
+  loadStrings_stream cs h fuel last a hf
+
+/-- the stream the theorems are about is what the encoder appends: `add_n_bit_change` on a multi-bit signal -/
+theorem C04_encoder_chunk (ti : Nat) (value : List Nat) (st : States) (s s' : SigEnc) (bits : Nat)
+    (ht : s.tpe = .bitvec bits) (hb : bits ≠ 1) (h : addNBit ti value st s = some s') :
+    ∃ loc body, s'.chunks = encChange (ti - s.prevTimeIdx) loc body :: s.chunks := by
+  unfold addNBit at h
+  simp only [ht, hb, ↓reduceIte] at h
+  split at h
+  · cases h
+  · cases h; exact ⟨_, _, rfl⟩
+
 /-! non-vacuity -/
+example : ∀ c ∈ [((0 : Nat), States.two, [(5 : Nat)]), (3, States.four, [10])],
+    c.2.2.length = divCeil 4 c.2.1.bib ∧ ((c.1 <<< 2) ||| c.2.1.toNat) < 2 ^ 32 := by decide
+
 example : ∃ d, decodeEntry .nine 6 (getLenAndMeta .nine 6).2
     (alignEntry .nine .four 6 (writeNState .four [1, 0, 2, 3, 0, 1] none)) = some (.four, d) ∧
     toSyms .four d 6 = [1, 0, 2, 3, 0, 1] :=
